@@ -33,7 +33,7 @@ func c32NS(rng *rand.Rand) namespace.Namespace {
 func c32Params(rng *rand.Rand) parameter.Parameters {
 	var p parameter.Parameters
 	for k := rng.IntN(3); k > 0; k-- {
-		p = append(p, &parameter.AuthorizationToken{AliasType: parameter.AuthorizationTokenAliasTypeUseValue, TokenType: vmon.BoundaryU64(rng), TokenValue: vmon.RandBytes(rng, rng.IntN(80))})
+		p = append(p, &parameter.AuthorizationToken{AliasType: parameter.AuthorizationTokenAliasTypeUseValue, TokenType: vmon.BoundaryU64(rng), TokenValue: vmon.RandBytes(rng, []int{rng.IntN(80), 110 + rng.IntN(23), 16360 + rng.IntN(41), rng.IntN(80)}[rng.IntN(4)])})
 	}
 	return p
 }
